@@ -173,7 +173,7 @@ def check_s1(rep, idx):
 
 
 def check_s2(rep, idx):
-    rep.rule("S2", "Spline::crop: source per-segment vectors indexed relative to i0, result vectors not", minimum=10)
+    rep.rule("S2", "Spline::crop: source per-segment vectors indexed relative to i0, result vectors not; every source vector copied for every kept segment", minimum=15)
     d = one(rep, idx, "Spline::crop")
     if d is None:
         return
@@ -240,6 +240,99 @@ def check_s2(rep, idx):
             if not ok:
                 rep.violation(Finding("S2", "Spline::crop", "%s[%s]" % (base[1], A.show(ix)),
                                       "result vector %s is indexed in the source frame (`%s` moves with i0)" % (base[1], A.show(ix)), f, l))
+    # coverage: every per-segment vector of the source is copied for *every* kept segment (a loop over i in [0, Nseg) reading member[i0 + i])
+    copied = {}
+    for loop in [x for x in A.walk(b) if x.get("kind") == "ForStmt"]:
+        ks = A.kids(loop)
+        var = next((v.get("name") for v in A.kids(ks[0]) if v.get("kind") == "VarDecl"), None) if ks[0].get("kind") == "DeclStmt" else None
+        init = next((A.to_expr(A.kids(v)[-1]) for v in A.kids(ks[0]) if v.get("kind") == "VarDecl" and A.kids(v)), None) if var else None
+        cnd = A.to_expr(ks[2]) if ks[2].get("kind") else None
+        if var is None or init != ("num", 0) or cnd is None:
+            continue
+        full = (cnd[0] == "op" and cnd[1] in ("<", "!=") and cnd[2][0] == "ref" and cnd[2][1] == var and cnd[3][0] == "ref" and cnd[3][1] == "Nseg")
+        if not full:
+            continue
+        def reads(x_):
+            """source members read as member[i0 + i] on every evaluation of the expression (both arms of a conditional)"""
+            out = set()
+            if isinstance(x_, tuple):
+                if x_ and x_[0] == "cond":
+                    g_ = interior(x_[1])
+                    if g_ is not None:
+                        return reads(x_[1]) | reads(x_[2] if g_ else x_[3])
+                    return reads(x_[1]) | (reads(x_[2]) & reads(x_[3]))
+                if x_ and x_[0] == "sub" and member_of_this(x_[1]) in FIVE and len(x_[2]) == 1:
+                    try:
+                        if all(pe.ev(subst(x_[2][0], arith), {"i0": a_, var: c_}) == a_ + c_ for a_, c_ in ((3, 2), (5, 7))):
+                            out.add(member_of_this(x_[1]))
+                    except pe.PEError:
+                        pass
+                for z in x_[1:]:
+                    out |= reads(z)
+            elif isinstance(x_, list):
+                for z in x_:
+                    out |= reads(z)
+            return out
+
+        def interior(c_):
+            """truth of a condition for a generic interior segment (0 < i < Nseg - 1), None when it is not a test on the loop index"""
+            try:
+                return bool(pe.ev(c_, {var: 5, "Nseg": 11}))
+            except pe.PEError:
+                return None
+
+        def copies(st):
+            """{source member: result vectors} copied for a generic interior segment on every path through the statement"""
+            k_ = st.get("kind")
+            if k_ == "CompoundStmt":
+                out = {}
+                for c_ in A.kids(st):
+                    for m_, rs in copies(c_).items():
+                        out.setdefault(m_, set()).update(rs)
+                return out
+            if k_ == "IfStmt":
+                kk = A.kids(st)
+                g_ = interior(A.to_expr(kk[0]))
+                if g_ is True:
+                    return copies(kk[1])
+                if g_ is False:
+                    return copies(kk[2]) if len(kk) > 2 else {}
+                if len(kk) < 3:
+                    return {}
+                t_, e_ = copies(kk[1]), copies(kk[2])
+                return {m_: t_[m_] | e_[m_] for m_ in t_ if m_ in e_}
+            if k_ in ("BinaryOperator", "CXXOperatorCallExpr", "ExprWithCleanups"):
+                e = A.to_expr(st)
+                if e[0] == "op" and e[1] == "=" and e[2][0] == "sub" and e[2][1][0] == "ref" and e[2][1][1] in result_vecs and len(e[2][2]) == 1 \
+                   and e[2][2][0][0] == "ref" and e[2][2][0][1] == var:
+                    return {m_: {e[2][1][1]} for m_ in reads(e[3])}
+                if e[0] == "op" and e[1] == ",":
+                    out = copies_expr(e[2])
+                    for m_, rs in copies_expr(e[3]).items():
+                        out.setdefault(m_, set()).update(rs)
+                    return out
+            return {}
+
+        def copies_expr(e):
+            if e[0] == "op" and e[1] == "=" and e[2][0] == "sub" and e[2][1][0] == "ref" and e[2][1][1] in result_vecs and len(e[2][2]) == 1 \
+               and e[2][2][0][0] == "ref" and e[2][2][0][1] == var:
+                return {m_: {e[2][1][1]} for m_ in reads(e[3])}
+            return {}
+        for m_, rs in copies(ks[4]).items():
+            copied.setdefault(m_, set()).update(rs)
+    for m_ in FIVE:
+        okc = bool(copied.get(m_))
+        if not okc:
+            # a range constructor / std::copy from the member is a different idiom this rule does not interpret
+            other = [n for n, e in locs.items() if n in result_vecs and m_ in A.show(e)]
+            if other or any(m_ in A.ntext(x) and "copy" in A.ntext(x) for x in A.walk(b) if x.get("kind") == "CallExpr"):
+                rep.broke("S2: %s is transferred to the cropped spline by an idiom other than the per-segment loop; re-confirm the coverage rule" % m_)
+                continue
+        rep.instance("S2", "Spline::crop", "copies %s for every kept segment" % m_, ok=okc, sample={"file": fe.rel(d.file), "line": d.line, "into": sorted(copied.get(m_, []))})
+        if not okc:
+            rep.violation(Finding("S2", "Spline::crop", "copies %s for every kept segment" % m_,
+                                  "no loop over all kept segments copies %s[i0 + i] into the result: interior segments of the cropped spline do not inherit "
+                                  "this per-segment state from the source" % m_, d.file, d.line))
     # knot times bracketing the first and the last kept source segment, checked against a symbolic knot table
     tt = {"tta": [], "ttb": []}
     for x in A.walk(b):
@@ -277,6 +370,115 @@ def check_s2(rep, idx):
                                   "for a crop starting in source segment %d keeping %d segment(s), the %s kept segment is taken to span [%s, %s] "
                                   "but it spans [%s, %s] in the source spline (tta = `%s`, ttb = `%s`)"
                                   % (bad[0], bad[1], which, bad[2], bad[3], bad[4], bad[5], A.show(ea), A.show(eb)), f, l))
+
+
+# --------------------------------------------------------------------------------------------
+def check_s9(rep, idx):
+    """S9: a one-segment Spline built from control velocities stores as its end pose  g0 * (the segment evaluated at u = 1), by the same
+    cumulative evaluator and basis table operator() uses -- so end(), evaluation beyond t_max and concatenation agree with the curve;
+    FixedCubic's middle coefficient makes exp(V0) exp(V1) exp(V2) = inverse(ga) * gb in the free group."""
+    import c14
+    rep.rule("S9", "Spline constructors store end pose = g0 * segment(u = 1); FixedCubic reaches gb in the free group", minimum=3)
+    ctors = [d for d in idx if d.kind == "CXXConstructorDecl" and d.pattern and d.qname == "Spline::Spline" and d.file and d.file.startswith(fe.INCLUDE)
+             and A.body(d.node) is not None]
+    n_checked = 0
+    for d in ctors:
+        for x in A.walk(A.body(d.node)):
+            if x.get("kind") not in ("BinaryOperator", "CXXOperatorCallExpr"):
+                continue
+            e = A.to_expr(x)
+            if not (e[0] == "op" and e[1] == "=" and e[2][0] == "sub" and member_of_this(e[2][1]) == "m_end_g"):
+                continue
+            rhs = e[3]
+            if member_of_this(rhs) == "m_g0":
+                continue          # K == 0: the curve is constant
+            f, l = A.loc(x)
+            verdict, why = None, "unrecognised end-pose expression %s" % A.show(rhs)[:70]
+            if rhs[0] == "call" and str(rhs[1]).split("::")[-1].split("<")[0] == "composition" and len(rhs[2]) == 2 and member_of_this(rhs[2][0]) == "m_g0":
+                seg = rhs[2][1]
+                nm = str(seg[1]).split("::")[-1].split("<")[0] if seg[0] == "call" else None
+                if nm == "cspline_eval_vs" and len(seg[2]) >= 3:
+                    a0, a1, a2 = seg[2][:3]
+                    cols = (a0[0] == "mcall" and a0[2] == "colwise" and a0[1][0] == "sub" and member_of_this(a0[1][1]) == "m_Vs" and a0[1][2] == [("num", 0)])
+                    basis = a1[0] == "ref" and a1[1] == "kMappedBasisFunction"
+                    try:
+                        at_one = pe.ev(a2, {}) == 1
+                    except pe.PEError:
+                        at_one = False
+                    if cols and basis:
+                        verdict, why = (True, "") if at_one else (False, "the segment is evaluated at u = %s, not at its end u = 1" % A.show(a2))
+                    else:
+                        why = "cspline_eval_vs is called with (%s, %s, ..)" % (A.show(a0)[:30], A.show(a1)[:30])
+                elif nm == "exp" and len(seg[2]) == 1 and "sum" in A.show(seg[2][0]):
+                    verdict, why = False, ("the end pose is g0 * exp(%s): the exponential of the *sum* of the control velocities equals the product of "
+                                           "their exponentials only on commutative groups" % A.show(seg[2][0])[:40])
+            n_checked += 1
+            if verdict is None:
+                rep.broke("S9: %s (%s:%s)" % (why, fe.rel(f), l))
+                continue
+            rep.instance("S9", "Spline::Spline", "end pose @%s" % l, ok=verdict, sample={"file": fe.rel(f), "line": l})
+            if not verdict:
+                rep.violation(Finding("S9", "Spline::Spline", "end pose", why, f, l))
+    if n_checked < 2:
+        rep.broke("S9: found %d end-pose assignments in Spline constructors, expected 2" % n_checked)
+    # FixedCubic
+    fc = funcs(idx, "Spline::FixedCubic")
+    if len(fc) != 1:
+        rep.broke("S9: Spline::FixedCubic not found")
+        return
+    d = fc[0]
+    ps = [p.get("name") for p in A.params(d.node)]      # gb, va, vb, T, ga
+    if len(ps) != 5:
+        rep.broke("S9: FixedCubic has %d parameters" % len(ps))
+        return
+    gb, ga = ps[0], ps[4]
+    subst = {}
+
+    def col_index(e):
+        sign = 1
+        while e[0] == "neg":
+            sign, e = -sign, e[1]
+        if e[0] == "mcall" and e[2] == "col" and len(e[4]) == 1 and e[4][0][0] == "num":
+            return sign, int(e[4][0][1])
+        raise c14.FGErr("tangent argument %s" % A.show(e)[:40])
+
+    def gv(e):
+        if e[0] == "ref":
+            return [(e[1], 1)]
+        if e[0] == "call":
+            f = str(e[1]).split("::")[-1].split("<")[0]
+            if f == "composition":
+                out = []
+                for a in e[2]:
+                    out += gv(a)
+                return c14.fg_reduce(out)
+            if f == "inverse" and len(e[2]) == 1:
+                return c14.fg_inv(gv(e[2][0]))
+            if f == "exp" and len(e[2]) == 1:
+                sg, k = col_index(e[2][0])
+                return [("E%d" % k, sg)]
+        raise c14.FGErr("group expression %s" % A.show(e)[:50])
+    try:
+        for x in A.walk(A.body(d.node)):
+            if x.get("kind") in ("BinaryOperator", "CXXOperatorCallExpr"):
+                e = A.to_expr(x)
+                if e[0] == "op" and e[1] == "=" and e[3][0] == "call" and str(e[3][1]).split("::")[-1].split("<")[0] == "log" and len(e[3][2]) == 1:
+                    sg, k = col_index(e[2])
+                    w = gv(e[3][2][0])
+                    subst["E%d" % k] = w if sg == 1 else c14.fg_inv(w)
+        prod = []
+        for k in range(3):
+            prod += subst.get("E%d" % k, [("E%d" % k, 1)])
+        prod = c14.fg_reduce(prod)
+    except c14.FGErr as ex:
+        rep.broke("S9: cannot interpret FixedCubic: %s" % ex)
+        return
+    ok = prod == [(ga, -1), (gb, 1)]
+    show = " ".join("%s%s" % (s_, "" if e_ == 1 else "^-1") for s_, e_ in prod) or "1"
+    rep.instance("S9", "Spline::FixedCubic", "reaches gb", ok=ok, sample={"file": fe.rel(d.file), "line": d.line, "segment_product": show})
+    if not ok:
+        rep.violation(Finding("S9", "Spline::FixedCubic", "reaches gb",
+                              "exp(V0) exp(V1) exp(V2) reduces to  %s  in the free group; the segment ends at gb only if it is inverse(%s) * %s" % (show, ga, gb), d.file, d.line))
 
 
 def pe_frac(e, env):
